@@ -106,6 +106,40 @@ theorem parts_drop_failed (a b : List Outcome) :
     parts (a ++ .convFail :: b) = parts (a ++ b) ∧ parts (a ++ .encFail :: b) = parts (a ++ b) := by
   constructor <;> simp [parts, List.filterMap_append, List.filterMap_cons, Outcome.text?]
 
+/-- a crash of the converter (not a PyDelphinException) is NOT isolated: the command fails as a whole, whatever the
+other items are. -/
+theorem crash_not_isolated (srcFmt tgtFmt : Str) (indent : Bool) (n : Nat) (a b : List Outcome)
+    (ha : ∀ x ∈ a, x = .convFail ∨ ∃ t, x = .ok t ∨ x = .encFail) :
+    ∀ doc, convert srcFmt tgtFmt indent n (a ++ .convCrash :: b) ≠ .ok doc := by
+  intro doc h
+  unfold convert at h
+  split at h
+  · simp at h
+  · split at h
+    · simp at h
+    · rename_i p _ _
+      have : ∀ (a : List Outcome), (∀ x ∈ a, x = .convFail ∨ ∃ t, x = .ok t ∨ x = .encFail) →
+          firstErr p.tgt.canEncode (a ++ .convCrash :: b) ≠ none := by
+        intro a
+        induction a with
+        | nil => intro _; simp [firstErr]
+        | cons x xs ih =>
+          intro hx
+          have hxs := ih (fun y hy => hx y (by simp [hy]))
+          rcases hx x (by simp) with h1 | ⟨t, h1 | h1⟩ <;> subst h1 <;> simp only [List.cons_append, firstErr]
+          · exact hxs
+          · split
+            · exact hxs
+            · simp
+          · split
+            · exact hxs
+            · simp
+      have hne := this a ha
+      split at h
+      · simp at h
+      · rename_i hnone
+        exact hne hnone
+
 theorem parts_ok (a b : List Outcome) (t : Str) :
     parts (a ++ .ok t :: b) = parts a ++ t :: parts b := by
   simp [parts, List.filterMap_append, Outcome.text?]
@@ -292,8 +326,14 @@ theorem parse_examples :
 
 /-! ## "each equal to what converting and encoding that item on its own gives" and
 "transcoding … and back reproduces the original structures up to the information both formats carry",
-over OPAQUE item codecs with a stated round-trip hypothesis (the hypothesis is what C01–C03 prove for
-the real codecs; here it is composed with the document assembly). -/
+over OPAQUE item codecs with a stated round-trip hypothesis.  These three theorems are the abstract layer:
+`RoundTrips` (unconditional `dec (enc s) = some (carried s)`) and `WritesItems` (every written text is a
+`TokItem`/`JsonItem`/`XmlItem`) are hypotheses, not facts about the real codecs — C01–C03 prove the round trip only
+under their `Expressible…`/`lexOK` hypotheses, and `WritesItems` fails for symbols containing brackets (see the
+RESTRICTION note in Model.lean).  The INSTANTIATION with real item codecs is `Verif/Integration/Frame.lean`:
+`loads_convert_simpledmrs(_row)`, `loads_convert_eds(_row/_lines)`, `convert_doc_frame_simplemrs_simpledmrs/_eds`
+prove "loads(convert(items)) = the N converted structures" for C20's `assemble` around C02's / C03's encoder texts,
+read by C02's / C03's lexer-and-parser models, under exactly C02's / C03's hypotheses and without `TokItem`. -/
 
 /-- an item codec over structures `S`: `carried s` is `s` reduced to what the format carries. -/
 structure ItemCodec (S : Type) where
@@ -388,6 +428,52 @@ theorem transcode_identity_on_common {S : Type}
 /-- the hypotheses are satisfiable: a codec writing `{n}`-style items (here: the text itself, for texts
 that are JSON items) round-trips through the JSON family -/
 example : (⟨fun s => s, fun t => some t, fun s => s⟩ : ItemCodec Str).RoundTrips := fun _ => rfl
+
+/-! ## the hypotheses of `convert_reads_back` are jointly satisfiable -/
+
+theorem jsonItem_of_b (it : Str) (h : jsonItemB it = true) : JsonItem it := by
+  unfold jsonItemB at h
+  simp only [Bool.and_eq_true] at h
+  obtain ⟨h1, h2⟩ := h
+  refine ⟨?_, by simpa using h2⟩
+  cases it with
+  | nil => simp at h1
+  | cons c cs =>
+    refine ⟨c, cs, rfl, ?_⟩
+    simp only [Bool.or_eq_true, beq_iff_eq] at h1
+    exact h1
+
+def exOutcomes : List Outcome :=
+  [.ok "{\"top\": \"h0\", \"x\": [1, \"]\"]}".toList, .convFail, .ok "{}".toList, .encFail]
+
+/-- `convert("simplemrs" → "mrs-json", indent)` on four items of which one fails in the converter and one in the
+encoder: the plan exists, the command succeeds, the target has a reader, the two remaining item texts are JSON
+items — and the document reads back as exactly those two, in order. -/
+example :
+    ∃ p doc, plan "simplemrs".toList "mrs-json".toList 1 = .ok p ∧
+      convert "simplemrs".toList "mrs-json".toList true 1 exOutcomes = .ok doc ∧
+      familyOf p.tgt ≠ .export ∧ (∀ it ∈ parts exOutcomes, ItemOk p.tgt p.tgtLines it) ∧
+      readBack p.tgt p.tgtLines doc = some (parts exOutcomes) := by
+  have hp : (plan "simplemrs".toList "mrs-json".toList 1).toOption.isSome = true := by decide
+  have hc : (convert "simplemrs".toList "mrs-json".toList true 1 exOutcomes).toOption.isSome = true := by decide
+  cases hp' : plan "simplemrs".toList "mrs-json".toList 1 with
+  | error e => rw [hp'] at hp; simp [Except.toOption] at hp
+  | ok p =>
+    cases hc' : convert "simplemrs".toList "mrs-json".toList true 1 exOutcomes with
+    | error e => rw [hc'] at hc; simp [Except.toOption] at hc
+    | ok doc =>
+      have ht := plan_tgt _ _ _ _ hp'
+      have hfamj : (getCodec (parseFormatName "mrs-json".toList).1).toOption.map familyOf = some .json := by decide
+      rw [ht.1] at hfamj
+      have hfam : familyOf p.tgt = .json := by simpa [Except.toOption] using hfamj
+      have hl : p.tgtLines = false := by rw [ht.2]; decide
+      have hit : ∀ it ∈ parts exOutcomes, ItemOk p.tgt p.tgtLines it := by
+        intro it hit
+        have hb : ∀ it ∈ parts exOutcomes, jsonItemB it = true := by decide
+        simp only [ItemOk, hl, Bool.false_eq_true, if_false, hfam, ItemFor]
+        exact jsonItem_of_b it (hb it hit)
+      refine ⟨p, doc, rfl, rfl, by rw [hfam]; decide, hit, ?_⟩
+      exact convert_reads_back _ _ true 1 exOutcomes doc p hp' hc' (by rw [hfam]; decide) hit
 
 /-! ## Pins: the constants of the anchored code that the hand-written model (and the oracle) mirror
 
